@@ -25,6 +25,9 @@ EXPLANATION = (
     "measures a leading relative command from (0,0), not from the first segment's recorded start). "
     "Not decided: the numeric round-trip tolerance, flag boundaries at exactly "
     "half a turn, arcs whose sweep exceeds a full turn."
+    ' R07.3 requires the advance of the running point on every path through the loop body: a branch that writes'
+    ' a segment and leaves the iteration (continue/break) is reported; isinstance tests against a single class'
+    ' count towards the coverage of segment kinds.'
 )
 TECHNIQUE = (
     "static analysis (no execution): writer followed by partial evaluation per (mode, form) and compared, operand by operand, with the reader table derived from the lexer summaries and the builder summaries; format-conversion precision lint"
@@ -364,7 +367,17 @@ def svg_d(ctx):
             i_p = [i for i, t in enumerate(tail) if t.startswith("%s = " % pvar)][0]
             if tail[i_p] == "%s = previous_segment.end" % pvar:
                 ok = i_prev < i_p
-        ctx.ob("R07.3", "Path.svg_d[advance line %d]" % lp.lineno, ok, "; ".join(tail), lp.lineno, "after each segment the current point becomes that segment's end")
+        # ... on every path through the iteration: a branch that writes a segment and leaves with `continue` skips the advance
+        skipping = []
+        for blk_owner in ast.walk(lp):
+            for field in ("body", "orelse"):
+                blk = getattr(blk_owner, field, None)
+                if isinstance(blk, list) and blk_owner is not lp and any(isinstance(x, (ast.Continue, ast.Break)) for x in blk) \
+                        and any(isinstance(c, ast.Call) and isinstance(c.func, ast.Attribute) and c.func.attr == "d" and ast.unparse(c.func.value) == seg for x in blk for c in ast.walk(x)):
+                    skipping.append(blk[0].lineno)
+        ok = ok and not skipping
+        ctx.ob("R07.3", "Path.svg_d[advance line %d]" % lp.lineno, ok, "; ".join(tail) + ("; a branch at line %s writes the segment and leaves the iteration before the advance" % skipping if skipping else ""), lp.lineno,
+               "after each segment - on every path through the loop body - the current point becomes that segment's end")
         classes = sorted({ast.unparse(t) for s in ast.walk(lp) if isinstance(s, ast.If) for t in [s.test] if "isinstance" in ast.unparse(t)})
         summaries.append((sorted(set(norm)), classes))
     if len(summaries) == 2:
@@ -372,8 +385,8 @@ def svg_d(ctx):
                "the explicit-relative loop and the as-parsed loop must treat segments alike")
     covered = set()
     for s in ast.walk(fn):
-        if isinstance(s, ast.Call) and isinstance(s.func, ast.Name) and s.func.id == "isinstance" and isinstance(s.args[1], ast.Tuple):
-            covered |= {e.id for e in s.args[1].elts if isinstance(e, ast.Name)}
+        if isinstance(s, ast.Call) and isinstance(s.func, ast.Name) and s.func.id == "isinstance" and len(s.args) == 2:
+            covered |= {e.id for e in (s.args[1].elts if isinstance(s.args[1], ast.Tuple) else [s.args[1]]) if isinstance(e, ast.Name)}
     ctx.ob("R07.3", "Path.svg_d[segment kinds]", covered >= {"Move", "Line", "Arc", "Close", "CubicBezier", "QuadraticBezier"}, str(sorted(covered)), fn.lineno,
            "every segment kind must be written")
     for cname, prevfield, ownfield in (("QuadraticBezier", "control", "control"), ("CubicBezier", "control2", "control1")):
